@@ -125,9 +125,13 @@ pub fn gen_c01(tier: &str, r: u64, ex: u64, rng: &mut Rng) -> Value {
         ];
         rng.shuffle(&mut pre);
         pre.truncate(rng.range(1, 3) as usize);
+        if rng.chance(1, 3) {
+            // a checked copy whose destination is the hard link an extraction has just made (the same file)
+            pre = vec![json!({"k":"api","op":"hard_link","key":0,"to":"$O/pre-same"}), json!({"k":"api","op":"copy","key":0,"to":"$O/pre-same"})];
+        }
         for p in pre.iter_mut() {
             set_flav(p, f);
-            if rng.chance(1, 3) {
+            if rng.chance(1, 3) && p["to"] != "$O/pre-same" {
                 // the destination exists already and is longer than the value
                 steps.push(json!({"k":"env","act":"write_file","path":p["to"].clone(),"hex":"ee".repeat(if rng.chance(1, 2) { (len as usize + 10).min(5000) } else { (len as usize).min(5000) })}));
             }
@@ -266,6 +270,11 @@ pub fn gen_c18(rng: &mut Rng) -> Value {
                 let n = if rng.chance(1, 2) { (len as usize + 10).min(5000) } else { len as usize };
                 steps.push(json!({"k":"env","act":"write_file","path":format!("$O/e{i}"),"hex":"ee".repeat(n)}));
                 format!("$O/e{i}")
+            }
+            1 if rng.chance(1, 2) => {
+                // a symlink (the caller's) that resolves to the entry's own content file
+                steps.push(json!({"k":"env","act":"dir_symlink","path":format!("$O/sl{i}"),"target_content":c0.clone()}));
+                format!("$O/sl{i}")
             }
             1 => {
                 steps.push(json!({"k":"env","act":"mkdir","path":format!("$O/dir{i}")}));
